@@ -390,6 +390,24 @@ fn run_case_c0809(cx: &Ctx, key: &str, ec: &EvCase, mode: Mode) -> CaseOut {
                 _ if has_term => {}
                 _ => c09(s, &cx.grid, &ec.specs, dir, ec.known_root, &mut vs, &mut tags),
             }
+            if mode == Mode::C09 && !has_term {
+                // the same sign changes are reported when output times are requested as well (the first
+                // requested time lies well after x0, the last one before xend)
+                let mut ct = c.clone();
+                let (a, b) = (c.x0, c.xend);
+                ct.t_eval = Some(vec![a + 0.41 * (b - a), a + 0.73 * (b - a)]);
+                let rt = run(&cx.prob, &ct);
+                out.events += rt.st.n_ode + rt.st.n_events;
+                match rt.sol() {
+                    Some(st) if st.status == Status::Success => {
+                        if st.t_events.len() != s.t_events.len() || st.t_events.iter().zip(&s.t_events).any(|(u, v)| !bits_eq(u, v)) {
+                            vs.push(("events-with-t-eval".into(), format!("with t_eval the reported events are {:?}, without {:?}", st.t_events, s.t_events)));
+                        }
+                        tags.push("events-with-t-eval");
+                    }
+                    _ => vs.push(("outcome".into(), format!("the same run with t_eval ended with {}", rt.outcome_name()))),
+                }
+            }
             out.validated = s.t_events.iter().map(|l| l.len() as u64).sum::<u64>() + (cx.grid.len() as u64 - 1) * ec.specs.len() as u64;
             let mut h = r.st.fp;
             for l in &s.t_events {
@@ -692,6 +710,7 @@ pub fn run_check(mode: Mode, replay: Option<Value>) -> i32 {
             rep.require("multi-event", 10);
             rep.require("single-root-checked", 100);
             rep.require("exact-zero-crossing", 100);
+            rep.require("events-with-t-eval", 1000);
             rep.rule = "same lattice as C08; the event functions are evaluated by the harness at every pair of consecutive accepted endpoints of the run: strict opposite signs in the configured direction <=> exactly one event in that step, same strict sign => none (exact zeros excluded); ±(t-c): exactly one event within 2e-11 of c".into();
         }
         Mode::C10 => {
